@@ -4,7 +4,8 @@
 //! outputs list:  `<value>=<script>/<value>=<script>/...`      (empty string = no outputs)
 //! inputs list:   `<satoshis|->=<unlocking script>=<locking script|->/...`
 use crate::util::*;
-use bsv::{MatchCriteria, MatchDataTypes, Script, ScriptTemplate, Transaction, TxIn, TxOut};
+use bsv::{MatchCriteria, MatchDataTypes, OpCodes, Script, ScriptBit, ScriptTemplate, Transaction, TxIn, TxOut};
+use std::str::FromStr;
 
 fn show_matches(ms: &[(MatchDataTypes, Vec<u8>)]) -> String {
     let mut s = String::new();
@@ -34,8 +35,203 @@ fn opt_script(s: &str) -> Result<Option<Script>, ()> {
     if s == "-" {
         return Ok(None);
     }
+    // `z<hex>`: a script assembled in memory from lone opcode bits (Script::from_script_bits), one per byte;
+    // this is the only way to an object such as [OpCode(OP_IF)] that no parser returns
+    if let Some(h) = s.strip_prefix('z') {
+        let bytes = hex::decode(h).map_err(|_| ())?;
+        let mut bits = vec![];
+        for b in bytes {
+            let bit = match b {
+                0x63 => ScriptBit::OpCode(OpCodes::from_str("OP_IF").map_err(|_| ())?),
+                0x64 => ScriptBit::OpCode(OpCodes::from_str("OP_NOTIF").map_err(|_| ())?),
+                0x65 => ScriptBit::OpCode(OpCodes::from_str("OP_VERIF").map_err(|_| ())?),
+                0x66 => ScriptBit::OpCode(OpCodes::from_str("OP_VERNOTIF").map_err(|_| ())?),
+                _ => match Script::from_bytes(&[b]).map_err(|_| ())?.to_script_bits().as_slice() {
+                    [ScriptBit::OpCode(c)] => ScriptBit::OpCode(*c),
+                    _ => return Err(()),
+                },
+            };
+            bits.push(bit);
+        }
+        return Ok(Some(Script::from_script_bits(bits)));
+    }
     let b = expand(s).ok_or(())?;
     Script::from_bytes(&b).map(Some).map_err(|_| ())
+}
+
+fn build_outs(l: &str) -> Result<Vec<TxOut>, ()> {
+    let mut v = vec![];
+    if !l.is_empty() {
+        for item in l.split('/') {
+            let f: Vec<&str> = item.split('=').collect();
+            if f.len() != 2 {
+                return Err(());
+            }
+            let val: u64 = f[0].parse().map_err(|_| ())?;
+            let s = opt_script(f[1])?.ok_or(())?;
+            v.push(TxOut::new(val, &s));
+        }
+    }
+    Ok(v)
+}
+
+fn build_ins(l: &str) -> Result<Vec<TxIn>, ()> {
+    let mut v = vec![];
+    if !l.is_empty() {
+        for (k, item) in l.split('/').enumerate() {
+            let f: Vec<&str> = item.split('=').collect();
+            if f.len() != 3 {
+                return Err(());
+            }
+            let unlock = opt_script(f[1])?.ok_or(())?;
+            let mut txin = TxIn::new(&[(k as u8).wrapping_add(1); 32], k as u32, &unlock, None);
+            if f[0] != "-" {
+                txin.set_satoshis(f[0].parse::<u64>().map_err(|_| ())?);
+            }
+            if let Some(s) = opt_script(f[2])? {
+                txin.set_locking_script(&s);
+            }
+            v.push(txin);
+        }
+    }
+    Ok(v)
+}
+
+fn obs(all: &[usize], first: Option<usize>) -> String {
+    let l: Vec<String> = all.iter().map(|i| i.to_string()).collect();
+    format!("{}:{}", l.join(","), first.map(|i| i.to_string()).unwrap_or_else(|| "-".into()))
+}
+
+/// observe -> mutate -> observe on ONE MatchCriteria and ONE Transaction.
+/// steps (joined by `/`): v=N set_value, n=N set_min, x=N set_max, t=<text hex> set_script_template,
+///   r continue with the value the last setter returned, c continue with a clone of the criteria,
+///   k continue with a clone of the transaction, b serialise the transaction and parse it back,
+///   s=K.N set_satoshis on input K, l=K.<script> set_locking_script, u=K.<script> set_unlocking_script (get_input/set_input),
+///   w=K.N replace output K by the same script with value N (get_output/set_output)
+fn history(inputs: bool, items: &str, steps: &str) -> String {
+    let mut tx = Transaction::new(1, 0);
+    if inputs {
+        match build_ins(items) {
+            Ok(v) => tx.add_inputs(v),
+            Err(_) => return "BADARG".into(),
+        }
+    } else {
+        match build_outs(items) {
+            Ok(v) => tx.add_outputs(v),
+            Err(_) => return "BADARG".into(),
+        }
+    }
+    let mut c = MatchCriteria::new();
+    let mut last: Option<MatchCriteria> = None;
+    let look = |tx: &Transaction, c: &MatchCriteria| -> String {
+        if inputs {
+            obs(&tx.match_inputs(c), tx.match_input(c))
+        } else {
+            obs(&tx.match_outputs(c), tx.match_output(c))
+        }
+    };
+    let mut out = vec![look(&tx, &c)];
+    if !steps.is_empty() {
+        for st in steps.split('/') {
+            let (k, v) = match st.split_once('=') {
+                Some((k, v)) => (k, v),
+                None => (st, ""),
+            };
+            let idx_val = |v: &str| -> Option<(usize, String)> {
+                let (i, r) = v.split_once('.')?;
+                Some((i.parse().ok()?, r.to_string()))
+            };
+            let mut was_setter = false;
+            match k {
+                "v" | "n" | "x" => {
+                    let n: u64 = match v.parse() {
+                        Ok(n) => n,
+                        Err(_) => return "BADARG".into(),
+                    };
+                    last = Some(match k {
+                        "v" => c.set_value(n),
+                        "n" => c.set_min(n),
+                        _ => c.set_max(n),
+                    });
+                    was_setter = true;
+                }
+                "t" => {
+                    let t = match expand(v).and_then(|b| String::from_utf8(b).ok()) {
+                        Some(t) => t,
+                        None => return "BADARG".into(),
+                    };
+                    match ScriptTemplate::from_asm_string(&t) {
+                        Ok(tmpl) => last = Some(c.set_script_template(&tmpl)),
+                        Err(_) => return "OK:badtemplate".into(),
+                    }
+                    was_setter = true;
+                }
+                "r" => match &last {
+                    Some(l) => c = l.clone(),
+                    None => return "BADARG".into(),
+                },
+                "c" => c = c.clone(),
+                "k" => tx = tx.clone(),
+                "b" => {
+                    tx = match tx.to_bytes().and_then(|b| Transaction::from_bytes(&b)) {
+                        Ok(t) => t,
+                        Err(_) => return "ERR".into(),
+                    }
+                }
+                "s" | "l" | "u" if inputs => {
+                    let (i, r) = match idx_val(v) {
+                        Some(x) => x,
+                        None => return "BADARG".into(),
+                    };
+                    let mut txin = match tx.get_input(i) {
+                        Some(t) => t,
+                        None => return "BADARG".into(),
+                    };
+                    match k {
+                        "s" => match r.parse::<u64>() {
+                            Ok(n) => txin.set_satoshis(n),
+                            Err(_) => return "BADARG".into(),
+                        },
+                        _ => {
+                            let sc = match opt_script(&r) {
+                                Ok(Some(s)) => s,
+                                _ => return "BADARG".into(),
+                            };
+                            if k == "l" {
+                                txin.set_locking_script(&sc)
+                            } else {
+                                txin.set_unlocking_script(&sc)
+                            }
+                        }
+                    }
+                    tx.set_input(i, &txin);
+                }
+                "w" if !inputs => {
+                    let (i, r) = match idx_val(v) {
+                        Some(x) => x,
+                        None => return "BADARG".into(),
+                    };
+                    let o = match tx.get_output(i) {
+                        Some(o) => o,
+                        None => return "BADARG".into(),
+                    };
+                    let n: u64 = match r.parse() {
+                        Ok(n) => n,
+                        Err(_) => return "BADARG".into(),
+                    };
+                    tx.set_output(i, &TxOut::new(n, &o.get_script_pub_key()));
+                }
+                _ => return "BADARG".into(),
+            }
+            let o = look(&tx, &c);
+            // the value a setter returns is a copy of the updated object
+            if was_setter && last.as_ref().map(|l| look(&tx, l)) != Some(o.clone()) {
+                return "OK:inconsistent".into();
+            }
+            out.push(o);
+        }
+    }
+    format!("OK:{}", out.join(";"))
 }
 
 /// criteria from args[1..5]: template text (hex) or `-`, exact, min, max
@@ -175,6 +371,13 @@ pub fn run(op: &str, args: &[String]) -> Option<String> {
                 Err(_) => "OK:nomatch".into(),
             }
         }
+        "tx.match_history" => {
+            match (args.get(0).map(|s| s.as_str()), args.get(1), args.get(2)) {
+                (Some("o"), Some(items), Some(steps)) => history(false, items, steps),
+                (Some("i"), Some(items), Some(steps)) => history(true, items, steps),
+                _ => "BADARG".into(),
+            }
+        }
         "tx.match_outputs" => {
             let mut tx = Transaction::new(1, 0);
             let mut bulk: Vec<TxOut> = vec![];
@@ -251,6 +454,16 @@ pub fn run(op: &str, args: &[String]) -> Option<String> {
                         Ok(Some(s)) => txin.set_locking_script(&s),
                         Ok(None) => (),
                         Err(_) => return Some("BADARG".into()),
+                    }
+                    // public view of the script the criteria are matched against
+                    let want: Vec<u8> = match txin.get_locking_script() {
+                        Some(l) => [txin.get_unlocking_script().to_bytes(), l.to_bytes()].concat(),
+                        None => txin.get_unlocking_script().to_bytes(),
+                    };
+                    if let Ok(f) = txin.get_finalised_script() {
+                        if f.to_bytes() != want {
+                            return Some("OK:inconsistent".into());
+                        }
                     }
                     tx.add_input(&txin);
                     bulk.push(txin);
